@@ -16,6 +16,7 @@ type VChan struct {
 	Nil Term
 	Obj int
 	Typ types.Type
+	Id  Term // identity (sort ErrId): two channel values are the same channel iff their ids are equal
 }
 
 // ChanObj is the heap content of a channel: a ghost queue abstraction.
@@ -784,6 +785,16 @@ func (x *Exec) elemAssume(st *State, obj, cell int) {
 		if x.fn.Pkg != nil {
 			env.pkg = x.fn.Pkg.Pkg
 		}
+		// the parameters of the function under verification are in scope ("elem.ch != conn.ch")
+		if len(st.frames) > 0 {
+			f0 := st.frames[0]
+			for _, p := range f0.fn.Params {
+				if pv, ok := f0.env[p]; ok {
+					env.vars[p.Name()] = TV{pv, p.Type()}
+				}
+			}
+		}
+		x.extendEnv(env, st, st.top())
 		t, err := env.EvalBool(parts[1])
 		if err != nil {
 			x.unsupported(st, err.Error())
